@@ -32,8 +32,12 @@ type Net struct {
 	// OnAppend / OnAck observe messages as they are handed to the receiving side.
 	OnAppend func(follower string, a *proto.Append)
 	OnAck    func(follower string, term int64, a *proto.Ack)
-	Streams  []*RepStream
+	// OnAckSend observes an ack at the instant the follower hands it to the stream.
+	OnAckSend func(st *RepStream, a *proto.Ack)
+	Streams   []*RepStream
 }
+
+type grouper interface{ group() int }
 
 func NewNet() *Net { return &Net{Peers: map[string]FollowerEndpoint{}, Down: map[string]bool{}} }
 
@@ -52,6 +56,7 @@ type RepStream struct {
 	done       chan struct{} // closed when the server handler returned
 	serverErr  error
 	sendClosed bool
+	ownerGrp   int
 }
 
 func (n *Net) GetReplicateStream(ctx context.Context, follower string, namespace string, shard int64, term int64) (proto.OxiaLogReplication_ReplicateClient, error) {
@@ -64,12 +69,17 @@ func (n *Net) GetReplicateStream(ctx context.Context, follower string, namespace
 	st := &RepStream{net: n, follower: follower, term: term, ctx: sctx, cancel: cancel,
 		toServer: make(chan *proto.Append, 1024), toClient: make(chan *proto.Ack, 1024), done: make(chan struct{})}
 	n.Streams = append(n.Streams, st)
-	vsched.Go(func() {
+	sc := vsched.Active()
+	st.ownerGrp = sc.Cur().Group
+	t := sc.Go("replicate@"+follower, func() {
 		err := ep.Replicate(&repServer{st})
 		st.serverErr = err
 		st.cancel()
 		vsched.Close(st.done)
 	})
+	if g, ok := ep.(grouper); ok {
+		t.Group = g.group()
+	}
 	return &repClient{st}, nil
 }
 
@@ -175,6 +185,9 @@ func (s *repServer) Send(a *proto.Ack) error {
 	if s.st.ctx.Err() != nil {
 		return status.Error(codes.Canceled, "context canceled")
 	}
+	if s.st.net.OnAckSend != nil {
+		s.st.net.OnAckSend(s.st, a)
+	}
 	vsched.Send(s.st.toClient)(a.CloneVT())
 	return nil
 }
@@ -206,10 +219,14 @@ func (n *Net) SendSnapshot(ctx context.Context, follower string, namespace strin
 	md := metadata.New(map[string]string{"shard-id": itoa(shard), "term": itoa(term), "namespace": namespace})
 	sctx, cancel := context.WithCancel(metadata.NewIncomingContext(ctx, md))
 	st := &snapStream{ctx: sctx, cancel: cancel, chunks: make(chan *proto.SnapshotChunk, 4096), resp: make(chan *proto.SnapshotResponse, 1), done: make(chan struct{})}
-	vsched.Go(func() {
+	sc := vsched.Active()
+	t := sc.Go("snapshot@"+follower, func() {
 		st.err = ep.SendSnapshot(&snapServer{st})
 		vsched.Close(st.done)
 	})
+	if g, ok := ep.(grouper); ok {
+		t.Group = g.group()
+	}
 	return &snapClient{st}, nil
 }
 
